@@ -3,7 +3,8 @@
   syntax tree with NAMES, and `elab` = the translation `Clause::to_tokens` performs, with the variable
   counter that `VarID::new` is made explicit.
 
-  * `STerm`  : `TreeTerm` (variables by name, `_`, literals, `[]`, lists and improper lists as cons cells).
+  * `STerm`  : `TreeTerm` (variables by name, `_`, literals, `[]`, lists and improper lists as cons cells) and
+               compound constructors / patterns (`comp`).
   * `SGoal`  : `==`, `!=`, `true`, `false`, conjunction `[g1, g2]`, disjunction `conde { g1, g2 }`,
                `|x| { g }` (one variable per binder; several are nested binders), pattern match arms
                `match t { p => body, rest… }` (`mtch t p body rest`; `ff` ends the arm list).
@@ -23,6 +24,9 @@ inductive STerm where
   | val (v : Val)
   | nil
   | cons (h t : STerm)
+  /-- a compound constructor / pattern (`P3(a, b, c)`, `Named { a: x, b: y }`, a tuple): type tag and the
+      arguments as a cons-list, as in `Term.comp` -/
+  | comp (g : Nat) (a : STerm)
 deriving Repr, DecidableEq
 
 inductive SGoal where
@@ -55,17 +59,20 @@ namespace STerm
 def names : STerm → List Name
   | .var x => [x]
   | .cons h t => (names h ++ names t).eraseDups
+  | .comp _ a => names a
   | _ => []
 
 def rename (x z : Name) : STerm → STerm
   | .var y => if y = x then .var z else .var y
   | .cons h t => .cons (rename x z h) (rename x z t)
+  | .comp g a => .comp g (rename x z a)
   | t => t
 
 /-- does the name occur -/
 def mentions (x : Name) : STerm → Bool
   | .var y => y == x
   | .cons h t => mentions x h || mentions x t
+  | .comp _ a => mentions x a
   | _ => false
 end STerm
 
@@ -84,6 +91,9 @@ def elabT (env : Env) : STerm → Nat → Term × Nat
     let (h', n1) := elabT env h n
     let (t', n2) := elabT env t n1
     (.cons h' t', n2)
+  | .comp g a, n =>
+    let (a', n1) := elabT env a n
+    (.comp g a', n1)
 
 /-- `Clause::to_tokens` -/
 def elabG (env : Env) : SGoal → Nat → EGoal × Nat
